@@ -138,3 +138,10 @@ CASES += [
     m("deep copy not registered (the repaired defect)", "C04-B3", "quantarhei/core/saveable.py",
       "                new.manager.register_with_basis(ob, new)\n", "                pass\n"),
 ]
+
+CASES += [
+    {"name": "conjugated operators kept across calls, keyed on the basis id (seeded change of round 5)", "kind": "mutant", "rule": "C04-B10", "edits": [
+        (L + "redfieldtensor.py", "            Kd = numpy.zeros(Km.shape, dtype=Km.dtype)\n            Nm = Km.shape[0]\n            ven = numpy.zeros(oper.data.shape, dtype=numpy.complex128)\n            for mm in range(Nm):\n                Kd[mm, :, :] = numpy.conj(numpy.transpose(Km[mm, :, :]))\n",
+         "            Nm = Km.shape[0]\n            if (self._Kd is None) or (self._Kd_basis != self.get_current_basis()):\n                self._Kd = numpy.conj(numpy.transpose(Km, (0, 2, 1)))\n                self._Kd_basis = self.get_current_basis()\n            Kd = self._Kd\n            ven = numpy.zeros(oper.data.shape, dtype=numpy.complex128)\n            for mm in range(Nm):\n", 1),
+        (L + "redfieldtensor.py", "    Km = BasisManagedComplexArray(\"Km\")\n", "    Km = BasisManagedComplexArray(\"Km\")\n    _Kd = None\n    _Kd_basis = None\n", 1)]},
+]
